@@ -387,9 +387,9 @@ def check_map(rec, spy, rng, cfg, rules, strict, merge):
             late = rng.randint(1, n - 1) if n >= 2 and rng.random() < 0.25 else 0
             if not late and rng.random() < 0.2 and all(r.get("merge") is None for r in rules):
                 late = "copies"  # (a copy keeps no per-rule merge_slashes, so only rules that leave it to the map)
-            ad = build_adapter(rules, order, strict, merge, late)
             if not late and n >= 2 and rng.random() < 0.12:
                 late = "inquisitive-factory"
+            ad = build_adapter(rules, order, strict, merge, late)
             if late == "inquisitive-factory":
                 rec.observe("maps_filled_by_a_factory_that_inspects_the_map")
             elif late == "copies":
